@@ -26,9 +26,13 @@ trace cap=.. chunk=.. pipe=.. out=.. err=.. timeout=.. poll=.. fixed=<0|1> | <ch
 ```
 Child tokens: `s<ms>` sleep, `o<n><k>`/`e<n><k>` write n bytes of pattern k (a m g x) to stdout/stderr,
 `p` default SIGPIPE, `x<code>` exit, `k` kill self, `h` hang, `r` read stdin to its end, `r<n>` read n bytes of
-stdin, `c` close stdin.
-Labels: `wo<n> we<n> do<n> de<n> po pe end ro re co ce eo ee fo fe m t` (child write/drop/sigpipe/end, reader
-read/check/eof/fail, main, tick), `ww<n> wend wepipe wfail` (stdin writer), `ri<n> ci` (child reads / closes stdin).
+stdin, `c` close stdin, `Co`/`Ce`/`Cb` close stdout / stderr / both and go on, `No`/`Ne`/`Nb` redirect them to
+/dev/null and go on (bytes "written" to a stream after that are not part of the plan: they reach no pipe),
+`G<ms>` fork a grandchild that closes its inherited stdin/stdout/stderr at once and sleeps (no effect on the plan),
+`F<ms>` fork a grandchild that KEEPS them open and sleeps: outside the model (header of `Model/Capture.lean`,
+item 2) — answered as if the grandchild were not there, i.e. what the runner should do for the child alone.
+Labels: `wo<n> we<n> do<n> de<n> po pe xo xe end ro re co ce eo ee fo fe m t` (child write/drop/sigpipe/close/end,
+reader read/check/eof/fail, main, tick), `ww<n> wend wepipe wfail` (stdin writer), `ri<n> ci` (child reads / closes stdin).
 -/
 namespace NaijaVerif.Driver.CaptureD
 open NaijaVerif NaijaVerif.Capture NaijaVerif.Driver
@@ -49,6 +53,8 @@ structure Script where
   ok : Bool := true
   sleeps : Nat := 0        -- milliseconds slept before the ending token
   ended : Bool := false
+  closedOut : Bool := false  -- the child has closed / redirected its stdout: later `o` tokens reach no pipe
+  closedErr : Bool := false
 
 def Script.tok (sc : Script) (t : String) : Script :=
   match t.toList with
@@ -60,6 +66,10 @@ def Script.tok (sc : Script) (t : String) : Script :=
   | ['k'] => if sc.ended then sc else { sc with ending := .signal, ended := true }
   | ['h'] => if sc.ended then sc else { sc with ending := .never, ended := true }
   | ['c'] => sc
+  | ['C', 'o'] | ['N', 'o'] => if sc.ended then sc else { sc with closedOut := true }
+  | ['C', 'e'] | ['N', 'e'] => if sc.ended then sc else { sc with closedErr := true }
+  | ['C', 'b'] | ['N', 'b'] => if sc.ended then sc else { sc with closedOut := true, closedErr := true }
+  | 'F' :: rest | 'G' :: rest => if (String.ofList rest).toNat?.isSome then sc else { sc with ok := false }
   | 'r' :: rest => if rest = [] ∨ (String.ofList rest).toNat?.isSome then sc else { sc with ok := false }
   | 'x' :: rest =>
       match (String.ofList rest).toNat? with
@@ -71,6 +81,7 @@ def Script.tok (sc : Script) (t : String) : Script :=
         | some k, some n =>
             if k = 'a' ∨ k = 'm' ∨ k = 'g' ∨ k = 'x' then
               let isErr := c = 'e'
+              if sc.ended ∨ (isErr ∧ sc.closedErr) ∨ (¬ isErr ∧ sc.closedOut) then sc else
               let cur := if isErr then sc.err else sc.out
               let ext := (List.range n).foldl (fun (a : Array Nat) _ => a.push (patByte isErr k (a.size))) cur
               if isErr then { sc with err := ext } else { sc with out := ext }
@@ -172,6 +183,7 @@ def parseLabel (t : String) : Option Label :=
   | 'w' :: 'w' :: rest => (String.ofList rest).toNat?.map .wrWrite
   | 'r' :: 'i' :: rest => (String.ofList rest).toNat?.map .childRead
   | ['p', c] => (strm c).map .childSigpipe
+  | ['x', c] => (strm c).map .childClose
   | 'w' :: c :: rest => do
       let x ← strm c
       let n ← (String.ofList rest).toNat?
